@@ -9,6 +9,7 @@ import GLua.Spec.CoSpec
       C06M co <cid> <wrapped 0|1> <fid|G>
       C06M a <fid> <act …>
       C06M run <fuel> => <trace tokens of the implementation>
+      C06M okprog => <1|0>      (is the script in the fragment of `history_simulation_partial`? guard tie)
   Verdict of `run`:  ok | MODEL <model trace> | SPEC <spec trace>  (exact comparison of the whole trace).
   Known-finding tags: none of the generated scripts lies in an open finding class (see known_findings.jsonl: the
   open C06 findings need shapes the script language cannot express).
@@ -101,6 +102,10 @@ def handle (st : St) (ws : List String) : St × Verdict :=
       let sp := (s0.co j).st.name
       (st, { model := cmpModel m impl, spec := if impl = [sp] then none else some ("status spec=" ++ sp) })
     | none => (st, { model := some "bad-gs" })
+  | ["okprog"] =>
+    -- the guard of the simulation theorem, as the harness computed it for this script
+    let m := if okProg st.prog then "1" else "0"
+    (st, { model := cmpModel m impl })
   | ["run", fuel] =>
     let fuel := fuel.toNat?.getD 20000
     let m := Co.runProg Co.Cfg.fixed st.prog fuel
